@@ -39,6 +39,7 @@ func ruleC08(w *World, r *Report) {
 		"R08.3 orientation: the core arm copies src→src/dst→dst and the access arm is its mirror (absolute table against the statement), the port work-around is symmetric, PFD-backed filters are copied verbatim under the direction predicate (access∧out ∨ core∧in) with no filter field written before the direction matched, the UE-address pre-fill picks dst for downlink and src for uplink; 'assigned'/'any' rewrite table of the xform closure; " +
 		"R08.4 handlePFDMgmtRequest: the previous table is saved before ResetAppPFDs, ResetAppPFDs installs a fresh map without touching the old one, it dominates every write, every rejecting exit restores the saved table and the accepting exit does not."
 	r.Explanation += " R08.5 on the request path pdr.appFilter is only refined field by field, never replaced wholesale (the UE address stored by parsePDI survives a malformed filter text)."
+	r.Explanation += " R08.6 the UP4 application sharing key is made of exactly the fields the applications entry is built from, per direction, unaltered; WRAP obligations on the port expansion."
 	r.NotDecided = "that the filter means the text for every string of the grammar (round trip over an infinite language); net.ParseCIDR/strconv semantics"
 	sdf := w.Fn(P, "pfcpiface.(*pdr).parseSDFFilter")
 	app := w.Fn(P, "pfcpiface.(*pdr).parseApplicationID")
